@@ -1,0 +1,27 @@
+//go:build verif
+
+package unique
+
+// Contracts for the unique plugin (C14, C01, C09), read by /verif's gvc (comment-only file).
+
+//@ func (g *gen) Add(name string, typs []types.Type) (r string, err error)
+//@ param typs: len=0,1,2,3
+//@ param name: classes=Ident
+
+//@ func (g *gen) Generate(typs []types.Type) (err error)
+//@ param typs: len=1
+
+// The O-clauses below are decided on the path for ==-comparable elements
+// (keys of the set of the list). On the hash-bucket path (elements that are not
+// ==-comparable) the emitted text is checked to parse, type-check and match its
+// signature, but its functional contract (pairwise non-Equal, covering, first
+// occurrences in order) needs a bucket-table invariant that is not mechanised:
+// "o-only" restricts the functional clauses to the comparable path.
+//@ func (g *gen) genFuncFor(typ *types.Slice) (err error)
+//@ emits: decls
+//@ serves: unique len=1 typ=typs[0]
+//@ o-sig: (list $typ) (r $typ)
+//@ o-only: derive.IsComparable(Elem(typ))
+//@ o-ensures: [covers] forall j int :: 0 <= j && j < len(list) ==> exists k int :: 0 <= k && k < len(r) && r[k] == list[j]
+//@ o-ensures: [only-input-elements] forall k int :: 0 <= k && k < len(r) ==> exists j int :: 0 <= j && j < len(list) && r[k] == list[j]
+//@ o-ensures: [pairwise-distinct] forall a int, b int :: 0 <= a && a < b && b < len(r) ==> r[a] != r[b]
